@@ -582,3 +582,75 @@ Proof.
     + exact (proj2 Hv2).
     + destruct Hv2 as (_ & Hd & _ & Hok2). auto.
 Qed.
+
+(* ------------------------------------------------------------------ the definition loop *)
+Definition g_doc_step (f : nat) (kind : tkind) : PM bool := g_assert_recursion_balanced ;; g_document_step f kind.
+
+Lemma rl_gen_assert : rl_gen g_assert_recursion_balanced.
+Proof. split; [apply (a_assert _ CT_atoms)|apply (a_assert _ CX_atoms)]. Qed.
+Lemma rl_gen_doc_step f k : rl_gen (g_doc_step f k).
+Proof. apply rl_gen_bind; [apply rl_gen_assert|intros _; apply rl_gen_document_step]. Qed.
+Lemma rl_gen_doc_loop f lf u :
+  rl_gen (p_peek_while_acc lf (fun (_ : unit) k => c <- g_doc_step f k ;; p_ret (tt, c)) u).
+Proof.
+  split.
+  - eapply specR_spec; [apply CT_rel|]. apply (gg_peek_while_acc CT CT_ok). intros a0 k0.
+    eapply post_bind; [apply CT_rel|apply (rl_gen_doc_step f k0)|intros; apply post_ret_same; apply CT_rel].
+  - eapply specR_spec; [apply CX_rel|]. apply (gg_peek_while_acc CX CX_ok). intros a0 k0.
+    eapply post_bind; [apply CX_rel|apply (rl_gen_doc_step f k0)|intros; apply post_ret_same; apply CX_rel].
+Qed.
+
+Lemma rl_assert_run s u s' : g_assert_recursion_balanced s = POk (u, s') -> s' = s.
+Proof. unfold g_assert_recursion_balanced. destruct (_ =? _); [|discriminate]. intros H. injection H as _ H. auto. Qed.
+
+Lemma rl_acc_ok (d : rg_dp) ts r : rl_acc d ts = RgOk r <-> exists x, d ts = RgOk (x, r).
+Proof.
+  unfold rl_acc, rg_bind. destruct (d ts) as [[x r0]| |]; split; try discriminate.
+  - intros [= <-]. eauto.
+  - intros (y & [= <- <-]). reflexivity.
+  - intros (y & H). discriminate.
+  - intros (y & H). discriminate.
+Qed.
+
+Lemma rl_document_loop f : forall lf (u : unit) s (u0 : unit) s',
+  p_peek_while_acc lf (fun (_ : unit) k => c <- g_doc_step f k ;; p_ret (tt, c)) u s = POk (u0, s') ->
+  rl_ok s -> tr_ok (ps_rec s) -> forall n, (length (rl_sigs s) <= n)%nat ->
+  (ps_errors s' = ps_errors s -> exists ds, rg_defs_f n (rgl_definition LP) (rl_sigs s) = RgOk ds) /\
+  (rl_roomy s -> forall ds, rg_defs_f n (rgl_definition LP) (rl_sigs s) = RgOk ds -> ps_errors s' = ps_errors s).
+Proof.
+  induction lf as [|lf IH]; intros u s u0 s' E Hok Ht n Hn; [discriminate|].
+  pose proof Hok as [Hinv Ha]. destruct (rl_inv_cur _ Hinv) as (t & Hc & Hi & _).
+  destruct (rl_peek_while_acc_unroll _ _ _ _ _ _ _ Hc E) as ([] & cont & s1 & E1 & E2).
+  apply bind_ok in E1 as (b & s2 & E1 & E3). unfold p_ret in E3. injection E3 as Hb Hs2. subst b s2.
+  unfold g_doc_step in E1. apply bind_ok in E1 as (? & s0 & Ea & E1). apply rl_assert_run in Ea. subst s0.
+  destruct (rl_document_step f s cont s1 t Hok Ht Hc E1) as [Heof Hdef].
+  destruct (tkind_eqb (tok_kind t) TkEof) eqn:Hk.
+  - (* the end of the document *)
+    apply tkind_eqb_eq in Hk. destruct (Heof Hk) as [-> ->]. destruct E2 as [_ ->].
+    rewrite (rl_sigs_eof _ _ Hinv Hc Hk). destruct n; cbn [rg_defs_f]; split; eauto.
+  - assert (Hne : tok_kind t <> TkEof) by (intros H; apply tkind_eqb_eq in H; congruence).
+    destruct (Hdef Hne) as (-> & Hs1 & Hc1).
+    destruct (rl_gen_run _ _ _ _ (rl_gen_document_step f (tok_kind t)) E1 Ht) as (Ht1 & Hcur1 & Hlim1 & Hx1).
+    destruct (rl_gen_run _ _ _ _ (rl_gen_doc_loop f lf tt) E2 Ht1) as (_ & _ & _ & Hx2).
+    destruct (rl_sigs_tok _ _ Hinv Hc Hne) as (Hsig & _ & _).
+    unfold rl_sound, rl_complete in Hs1, Hc1. split.
+    + intros He. destruct (rl_ext_split _ _ _ Hx1 Hx2 He) as [He1 He2].
+      destruct (Hs1 He1) as (Hok1 & [pre1 Hpre1] & Hq1). apply rl_acc_ok in Hq1 as (d & Hq1).
+      pose proof (rgl_definition_progress _ _ Hq1) as Hlt. cbn [snd] in Hlt.
+      destruct n as [|n]; [lia|]. assert (Hn1 : (length (rl_sigs s1) <= n)%nat) by lia.
+      destruct (IH _ _ _ _ E2 Hok1 Ht1 n Hn1) as [Hs2 _]. destruct (Hs2 He2) as (ds & Hds).
+      exists (d :: ds). rewrite Hsig in Hq1 |- *. cbn [rg_defs_f]. rewrite Hq1. cbn [rg_bind snd fst]. rewrite Hds. reflexivity.
+    + intros Hr ds Hq. rewrite Hsig in Hq. destruct n as [|n]; [discriminate|]. cbn [rg_defs_f] in Hq.
+      unfold rg_bind in Hq at 1.
+      destruct (rgl_definition LP ((tok_kind t, tok_data t) :: rl_sig (ps_items s))) as [[d r1]| |] eqn:Eq1; try discriminate.
+      cbn [snd fst] in Hq.
+      destruct (rg_defs_f n (rgl_definition LP) r1) as [ds'| |] eqn:Eq2; try discriminate.
+      rewrite <- Hsig in Eq1.
+      assert (Hacc : rl_acc (rgl_definition LP) (rl_sigs s) = RgOk r1) by (apply rl_acc_ok; eauto).
+      destruct (Hc1 Hr r1 Hacc) as [He1 Hr1]. destruct (Hs1 He1) as (Hok1 & [pre1 Hpre1] & _).
+      pose proof (rgl_definition_progress _ _ Eq1) as Hlt. cbn [snd] in Hlt.
+      assert (Hn1 : (length (rl_sigs s1) <= n)%nat) by (rewrite Hr1; lia).
+      destruct (IH _ _ _ _ E2 Hok1 Ht1 n Hn1) as [_ Hc2].
+      assert (Hroom1 : rl_roomy s1) by (eapply rl_roomy_step; eauto).
+      rewrite <- Hr1 in Eq2. rewrite (Hc2 Hroom1 ds' Eq2). exact He1.
+Qed.
